@@ -12,7 +12,7 @@ pub fn more() -> Vec<PropDef> {
         },
         PropDef {
             id: "C01",
-            rule: "four producers: (a) Registry histories (register_type / register_types / map_into_portable, 0..24 ops) over the run-time programmable type family (16 nodes x 44 wrapper shapes, generated cyclic graph specs), invariant checked on Registry::types() after every op; (b) PortableRegistryBuilder histories under the documented reference discipline; (c) retain(mask) on the results and on generated well-formed registries; (d) decode(encode) / from_json(to_json) of each; oracle = id == index, resolve positional and total, every reference < n; non-trivial = at least 2 entries and at least one reference, distinct by (producer, encoding, ops)",
+            rule: "four producers: (a) Registry histories (register_type / register_types / map_into_portable, 0..24 ops) over the run-time programmable type family (16 nodes x 64 wrapper shapes, generated cyclic graph specs), invariant checked on Registry::types() after every op; (b) PortableRegistryBuilder histories under the documented reference discipline; (c) retain(mask) on the results and on generated well-formed registries; (d) decode(encode) / from_json(to_json) of each; oracle = id == index, resolve positional and total, every reference < n; non-trivial = at least 2 entries and at least one reference, distinct by (producer, encoding, ops)",
             assumptions: &["builder histories reference only ids already handed out or the announced next_type_id (the documented self-reference idiom)", "Rust types cannot be created at run time: type graphs come from a family of 16 const-generic node types whose type_info() is programmed per case"],
             subs: || {
                 let mut v = crate::p_hist::c01_subs();
@@ -44,7 +44,7 @@ pub fn more() -> Vec<PropDef> {
         },
         PropDef {
             id: "C16",
-            rule: "triples of types from the family (44 shapes x 16 nodes x aliases) under a generated spec; oracle = ==, cmp, partial_cmp, hash, type_id consistent with the harness identity function, antisymmetry, transitivity, equal identity => equal type_info(); non-trivial = a pair of different Rust types, distinct by the triple",
+            rule: "triples of types from the family (64 shapes x 16 nodes x aliases) under a generated spec; oracle = ==, cmp, partial_cmp, hash, type_id consistent with the harness identity function, antisymmetry, transitivity, equal identity => equal type_info(); non-trivial = a pair of different Rust types, distinct by the triple",
             assumptions: &["same identity function as C05"],
             subs: crate::p_hist::c16_subs,
             extra: None,
